@@ -81,6 +81,44 @@ theorem src_fromCan_eq : ∀ c : CanFrame, Src.fromCan c = fromCan c := by
        simp [hp, hy, List.head?_eq_getElem?]
        first | done | ((repeat' split) <;> simp_all [List.head?_eq_getElem?] <;> (try omega)))
 
+
+/-! ## `Frame::to_bxcan_frame`
+
+`Src.toCan f` (same generated file, `CanEncTranslator`): the identifier accumulated with `id |= …` exactly as in the source
+(flags cast `as u32` and shifted, the nibble of the frame id selected by a `match` on its kind, the address), then the
+construction of the `bxcan` frame as the primitive `Prim.canFrame` (which panics where `ExtendedId::new(..).unwrap()`, the slice
+or `Data::new(..).unwrap()` would). For **every** frame — well-formed or not — it computes what the model's `toCan` does, so
+C08's layout theorem is about the encoder as it reads now. -/
+
+theorem bit_shl_mod (b : Bool) (k : Nat) (hk : k ≤ 28) : (bit b <<< k) % 4294967296 = bit b <<< k := by
+  have h : bit b ≤ 1 := by cases b <;> simp [bit]
+  have h2 : (2:Nat) ^ k ≤ 2 ^ 28 := Nat.pow_le_pow_right (by decide) hk
+  have h3 : bit b * 2 ^ k ≤ 1 * 2 ^ 28 := Nat.mul_le_mul h h2
+  rw [Nat.shiftLeft_eq]
+  apply Nat.mod_eq_of_lt
+  omega
+
+theorem bit_shl28_mod (b : Bool) : (bit b <<< 28) % 4294967296 = bit b <<< 28 := bit_shl_mod b 28 (by decide)
+theorem bit_shl27_mod (b : Bool) : (bit b <<< 27) % 4294967296 = bit b <<< 27 := bit_shl_mod b 27 (by decide)
+theorem bit_shl26_mod (b : Bool) : (bit b <<< 26) % 4294967296 = bit b <<< 26 := bit_shl_mod b 26 (by decide)
+
+theorem nibble_shl_mod (x : Nat) : (((x &&& 3840) >>> 8) <<< 16) % 4294967296 = ((x &&& 3840) >>> 8) <<< 16 := by
+  have : x &&& 3840 ≤ 3840 := Nat.and_le_right
+  rw [Nat.shiftLeft_eq, Nat.shiftRight_eq_div_pow]
+  omega
+
+theorem or_left_comm' (a b c : Nat) : a ||| (b ||| c) = b ||| (a ||| c) := by
+  rw [← Nat.or_assoc, Nat.or_comm a b, Nat.or_assoc]
+
+theorem src_toCan_eq : ∀ f : Frame, Src.toCan f = toCan f := by
+  first
+  | (intro f; simp only [Src.toCan]; done)      -- not translated on this run (the definition is the model's)
+  | (intro f
+     simp only [Src.toCan, toCan, Prim.canFrame, bit_shl28_mod, bit_shl27_mod, bit_shl26_mod, nibble_shl_mod, Nat.zero_or, ite_self]
+     -- the order in which the fields are or-ed into the identifier does not matter
+     first | done | (simp only [Nat.or_assoc, Nat.or_comm, or_left_comm']; done) | ((repeat' split) <;> simp_all <;> (try omega)))
+
 #print axioms src_fromUsart_eq
+#print axioms src_toCan_eq
 #print axioms src_fromCan_eq
 end Ross
